@@ -46,40 +46,40 @@ theorem jac_adjoint (Ks : List String) (N : Nat) (hK : Ks.Nodup) (e : Ex ℝ) (w
   induction e with
   | var k n =>
     intro hw ρ h y
-    simp only [lin, single_eq_pick]
+    simp only [lin, single_eq_pick, TranscReal.conj_eq]
     rw [ipB_pick_right Ks N hK "" hw.2, ipB_pick_left Ks N hK k hw.1]
   | add a b iha ihb =>
     intro hw ρ h y
-    simp only [lin]
+    simp only [lin, TranscReal.conj_eq]
     rw [ipB_add_right, ipB_add_left, iha hw.1, ihb hw.2]
   | sub a b iha ihb =>
     intro hw ρ h y
-    simp only [lin]
+    simp only [lin, TranscReal.conj_eq]
     rw [ipB_sub_right, ipB_sub_left, iha hw.1, ihb hw.2]
   | mul a b iha ihb =>
     intro hw ρ h y
-    simp only [lin]
+    simp only [lin, TranscReal.conj_eq]
     rw [ipB_add_right, ipB_add_left, ipB_mul, ipB_mul, ihb hw.2, iha hw.1]
   | scale c a iha =>
     intro hw ρ h y
-    simp only [lin]
+    simp only [lin, TranscReal.conj_eq]
     rw [ipB_mul Ks N y (fun _ _ => c), iha hw]
   | addc c neg a iha =>
     intro hw ρ h y
-    simp only [lin]
+    simp only [lin, TranscReal.conj_eq]
     rw [ipB_mask, iha hw]
   | mulc d a iha =>
     intro hw ρ h y
-    simp only [lin]
+    simp only [lin, TranscReal.conj_eq]
     rw [ipB_mul Ks N y (fun _ i => ofList d i), iha hw]
   | ptw f p a iha =>
     intro hw ρ h y
-    simp only [lin]
+    simp only [lin, TranscReal.conj_eq]
     rw [ipB_mask_mul, iha hw]
   | lin m n rows a iha =>
     intro hw ρ h y
     obtain ⟨hwa, h0, hm, hn⟩ := hw
-    simp only [lin, single_eq_pick]
+    simp only [lin, single_eq_pick, TranscReal.conj_eq]
     rw [← iha hwa, ipB_pick_right Ks N hK "" h0, ipB_pick_left Ks N hK "" h0]
     rw [rsum_congr N _ (fun i => if i < m then y "" i * rsum n (fun j => mat rows i j * (lin a ρ wm).jac h "" j) else 0)
       (fun i _ => by split <;> ring)]
@@ -97,13 +97,13 @@ theorem jac_adjoint (Ks : List String) (N : Nat) (hK : Ks.Nodup) (e : Ex ℝ) (w
   | sum a iha =>
     intro hw ρ h y
     obtain ⟨hwa, h0, hN, hd⟩ := hw
-    simp only [lin]
+    simp only [lin, TranscReal.conj_eq]
     rw [← iha hwa, ← contr_adj Ks N hK h0 hN a.dom hd]
     simp only [sci_1, one_mul]
   | vdot a b iha ihb =>
     intro hw ρ h y
     obtain ⟨hwa, hwb, h0, hN, hd⟩ := hw
-    simp only [lin]
+    simp only [lin, TranscReal.conj_eq]
     rw [ipB_add_left, ← ihb hwb, ← iha hwa, ← contr_adj Ks N hK h0 hN a.dom hd,
       ← contr_adj Ks N hK h0 hN a.dom hd, ← ipB_add_right]
     congr 1
@@ -115,40 +115,40 @@ theorem jac_adjoint (Ks : List String) (N : Nat) (hK : Ks.Nodup) (e : Ex ℝ) (w
   | getKey k a iha =>
     intro hw ρ h y
     obtain ⟨hwa, hk, h0⟩ := hw
-    simp only [lin, single_eq_pick]
+    simp only [lin, single_eq_pick, TranscReal.conj_eq]
     rw [← iha hwa, ipB_pick_right Ks N hK "" h0, ipB_pick_left Ks N hK k hk]
   | putKey k a iha =>
     intro hw ρ h y
     obtain ⟨hwa, hk, h0⟩ := hw
-    simp only [lin, single_eq_pick]
+    simp only [lin, single_eq_pick, TranscReal.conj_eq]
     rw [← iha hwa, ipB_pick_right Ks N hK k hk, ipB_pick_left Ks N hK "" h0]
   | chain f g ihf ihg =>
     intro hw ρ h y
-    simp only [lin]
+    simp only [lin, TranscReal.conj_eq]
     rw [ihf hw.1, ihg hw.2]
   | sqnorm a iha =>
     intro hw ρ h y
     obtain ⟨hwa, h0, hN, hd⟩ := hw
-    simp only [lin]
+    simp only [lin, TranscReal.conj_eq]
     rw [← iha hwa, ← contr_adj Ks N hK h0 hN a.dom hd]
   | quad d a iha =>
     intro hw ρ h y
     obtain ⟨hwa, h0, hN, hd⟩ := hw
-    simp only [lin]
+    simp only [lin, TranscReal.conj_eq]
     rw [← iha hwa, ← contr_adj Ks N hK h0 hN a.dom hd]
   | gauss data icov a iha =>
     intro hw ρ h y
     obtain ⟨hwa, h0, hN, hd⟩ := hw
-    simp only [lin]
+    simp only [lin, TranscReal.conj_eq]
     rw [← iha hwa, ← contr_adj Ks N hK h0 hN a.dom hd]
   | const en d v =>
     intro hw ρ h y
-    simp only [lin]
+    simp only [lin, TranscReal.conj_eq]
     rw [ipB_zero_right, ipB_zero_left]
   | bil m na nb T a b iha ihb =>
     intro hw ρ h y
     obtain ⟨hwa, hwb, h0, hm, hna, hnb⟩ := hw
-    simp only [lin, single_eq_pick]
+    simp only [lin, single_eq_pick, TranscReal.conj_eq]
     rw [ipB_add_left, ← iha hwa, ← ihb hwb, ipB_pick_right Ks N hK "" h0, ipB_pick_left Ks N hK "" h0,
       ipB_pick_left Ks N hK "" h0]
     rw [rsum_congr N _ (fun o => if o < m then y "" o * rsum na (fun i => rsum nb (fun j => ten T o i j *
@@ -168,7 +168,7 @@ theorem jac_adjoint (Ks : List String) (N : Nat) (hK : Ks.Nodup) (e : Ex ℝ) (w
   | varcov n a b iha ihb =>
     intro hw ρ h y
     obtain ⟨hwa, hwb, h0, hN, hn⟩ := hw
-    simp only [lin, single_eq_pick]
+    simp only [lin, single_eq_pick, TranscReal.conj_eq]
     rw [ipB_add_left, ← iha hwa, ← ihb hwb, ipB_pick_right Ks N hK "" h0, ipB_pick_left Ks N hK "" h0,
       ipB_pick_left Ks N hK "" h0]
     rw [rsum_congr N _ (fun i => if i = 0 then y "" i * rsum n (fun j =>
